@@ -39,6 +39,9 @@ def run(chk, tier, seed):
             elif r['kind'] in ('nonexistent-matches', 'relative-pattern-matches-absolute-path'):
                 chk.violation(dict(base, obligation='C04.bounded.' + r['kind'], witness=r['witness']),
                               f'globmatch({r["witness"]!r}, {r["pattern"]!r}, {r["fl"]}|REALPATH) is True on tree {r["tree"]} ({r["kind"]})', rp)
+            elif r['kind'] == 'globfilter-differs-from-globmatch':
+                chk.violation(dict(base, obligation='C04.bounded.globfilter==globmatch_per_candidate', witness=r['witness']),
+                              f'tree {r["tree"]} pattern {r["pattern"]!r} flags {r["fl"]}|REALPATH: globfilter and globmatch disagree on {r["witness"]!r}', rp)
             else:
                 n += 1
                 chk.case(key=(r['tree'], r['pattern'], r['flags'], str(r['exclude'])), nontrivial=r['n'] > 0 or bool(r['only_match']))
